@@ -215,6 +215,14 @@ def gen_dir(rng, di):
         files.append(gen_file(rng, nm, i, pkgs, allow_broken=(i == bi)))
     if malformed and bi >= 0 and files[bi]["broken"] is None:
         files[bi] = gen_file(rng, names[bi], bi, pkgs, True)
+    if rng.random() < 0.3:
+        M = ("tag", "mage")
+        a, b = rng.sample(["linux", "windows", "darwin"], 2)
+        extra = [seq_file("helper_%s.go" % a, None, "main", "H1"), seq_file("tasksx_%s.go" % b, M, "main", "H2"),
+                 seq_file("tasksy.go", ("and", M, ("tag", b)), "main", "H3"), seq_file("helpery.go", ("tag", a), "main", "H4"),
+                 seq_file("helperz_amd64.go", None, "main", "H5"), seq_file("tasksz_arm64.go", M, "main", "H6")]
+        have = {f["name"] for f in files}
+        files += [f for f in rng.sample(extra, rng.choice([2, 3, 4, 6])) if f["name"] not in have]
     files.sort(key=lambda f: f["name"].encode())
     return {"id": di, "files": files, "mixed": mixed, "mode": rng.choice([None] * 5 + [0o777, 0o1777, 0o775, 0o700, 0o755, 0o2777])}
 
@@ -398,7 +406,7 @@ def gen_request(rng, host):
     else:
         # spellings that are not platform names are taken literally (nothing is trimmed, lower-cased, translated or completed)
         goos, goarch = rng.choice(["garbage", "Linux", "unix", "macos", " linux", "lin", "win"]), rng.choice(["junk", "amd64", "ARM", " arm", "arm ", "x86_64", "aarch64", "ar", "mips6", "ppc", "amd"])
-    return {"goos": goos, "goarch": goarch, "isdir": rng.random() < 0.15}
+    return {"goos": goos, "goarch": goarch, "isdir": rng.random() < 0.15, "isdebug": rng.random() < 0.4}
 
 
 def proc_env(extra):
@@ -784,6 +792,52 @@ exec go "$@"
                      e2e_file("nt.go", ("not", T), "Nottag"), e2e_file("mot.go", ("or", M, T), "Mageortag")])
             jobs.append({"kind": "goflags", "top": top, "sub": None if n % 2 == 0 else D([e2e_file("targets.go", T, "Sub")]), "env": dict(envs[n % 2], GOFLAGS=gf), "plat": host, "flags": ("", ""),
                          "history": hist3 + [cstep], "gocmd": True, "goplan": ""})
+        # the OPTIONS of the invocation: none of them may change the selection, the targets or the working directory the targets see
+        import depslib
+        sub2 = lambda: D([e2e_file("targets.go", M, "Sub"), e2e_file("plain.go", None, "Plain")])
+        knob_dir = os.path.join(ctx.tmp, "knobs")
+        os.makedirs(knob_dir, exist_ok=True)
+        options = [(["-debug"], {}), ([], {"MAGEFILE_DEBUG": "1"}), (["-v"], {}), ([], {"MAGEFILE_VERBOSE": "1"}), (["-keep"], {}), (["-debug", "-v", "-keep"], {"MAGEFILE_VERBOSE": "true"})]
+        try:
+            knobs = depslib.discover_knobs()
+        except Exception as ex:      # discovery is an extra; without it the fixed options above remain
+            knobs = []
+            ctx.notes.append("knob discovery failed: %s" % ex)
+        for kn in knobs:             # every environment variable the tree reads that no model knows (none on the unchanged tree)
+            for val in ("1", "true", "1s", os.path.join(knob_dir, kn + ".out")):
+                options.append(([], {kn: val}))
+        HEAD_FLAGS = {"f", "debug", "v", "h", "t", "keep", "d", "w", "gocmd", "goos", "goarch", "ldflags", "l", "init", "clean", "compile", "version"}
+        rh = mg.run(mg.root, ["-h"], timeout=60)
+        new_flags = sorted(set(re.findall(r"^\s+-([A-Za-z][\w-]*)", rh["out"] + rh["err"], re.M)) - HEAD_FLAGS)
+        for fl in new_flags:         # every flag `mage -h` shows that HEAD does not have: the first spelling mage accepts
+            for val in ("true", "1s", os.path.join(knob_dir, fl + ".flag")):
+                if mg.run(mg.root, ["-%s=%s" % (fl, val), "-version"], timeout=60)["rc"] == 0:
+                    options.append((["-%s=%s" % (fl, val)], {}))
+                    break
+        ctx.coverage["option_knobs"] = knobs
+        ctx.coverage["option_new_flags"] = new_flags
+        def foreign_next_to_host():
+            # a mage-tagged file for ANOTHER platform next to an untagged host-platform file, in both forms
+            return D([e2e_file("magefile.go", M, "Build"), e2e_file("helper_%s.go" % host[0], None, "Helperhost"), e2e_file("tasks_%s.go" % other_os, M, "Tasksother"),
+                      e2e_file("more.go", ("and", M, ("tag", other_os)), "Moreother"), e2e_file("hosty.go", ("tag", host[0]), "Hosty"),
+                      e2e_file("archy_%s.go" % host[1], None, "Archy"), e2e_file("tasks_%s.go" % ("arm64" if host[1] != "arm64" else "amd64"), M, "Tasksarch")])
+        shapes = [lambda: (foreign_next_to_host(), None, None, None),
+                  lambda: (D([e2e_file("lib.go", None, "Leaked"), e2e_file("helper_%s.go" % host[0], None, "Helperhost")]), sub2(), None, None),     # folder used
+                  lambda: (foreign_next_to_host(), sub2(), None, None),                                                                            # dot wins
+                  lambda: (D([e2e_file("lib.go", None, "Leaked")]), sub2(), "elsewhere_w", None),                                                   # folder + -w
+                  lambda: (foreign_next_to_host(), None, None, ["d", "proj"]),                                                                     # -d from elsewhere
+                  lambda: (D([e2e_file("lib.go", None, "Leaked")]), sub2(), None, ["d", "proj"])]
+        per = 2 if ctx.quick else len(shapes)
+        for n, (xa, xe) in enumerate(options):
+            for k in range(per):
+                top, sub, wdir, via = shapes[(n + k * 3) % len(shapes)]()
+                jb = {"kind": "opts", "top": top, "sub": sub, "env": envs[(n + k) % len(envs)], "plat": host, "flags": ("", ""), "xargs": xa, "xenv": xe,
+                      "gocmd": (n + k) % 3 == 0, "goplan": "", "history": [{"name": "list", "what": "list"}, {"name": "run", "what": "run"}, {"name": "run-again-hashfast", "what": "run", "env": HF0}]}
+                if wdir:
+                    jb["wdir"] = wdir
+                if via:
+                    jb["via"] = via
+                jobs.append(jb)
         # platform NAMES: architectures whose names are prefixes of one another, with files that tell them apart; odd spellings
         L = host[0] if host[0] == "linux" else "linux"
         pairs = [("arm", "arm64"), ("ppc64", "ppc64le"), ("mips64", "mips64le"), ("mips", "mips64")]
@@ -876,6 +930,14 @@ exec go "$@"
                 env["PWD"] = path
             else:
                 cwd, pre = mg.root, ["-d", path]
+        if j and j.get("xargs"):
+            pre = list(j["xargs"]) + pre
+        if j and j.get("xenv"):
+            env.update(j["xenv"])
+        if j and j.get("wdir"):
+            wd_ = os.path.join(os.path.dirname(proj), j["wdir"])
+            os.makedirs(wd_, exist_ok=True)
+            pre = ["-w", wd_] + pre
         if j and j.get("gocmd"):
             pre = ["-gocmd", gowrap] + pre
             env["C10_GOLOG"] = log
@@ -1060,8 +1122,9 @@ exec go "$@"
                     return at + "no warning although both the directory and its magefiles subdirectory hold magefiles", items
                 d = sub if use_sub else top
                 items.append((top, sub, use_sub, sorted(f["name"] for f in d["files"] if f["ident"].lower() in o["targets"]), top_named, cflags))
-            elif o["wd"] != os.path.realpath(res["proj"]):
-                return at + "target ran in %s, expected the %s %s" % (o["wd"], "parent of the magefiles directory" if use_sub else "directory", res["proj"]), items
+            elif o["wd"] != os.path.realpath(os.path.join(os.path.dirname(res["proj"]), j["wdir"]) if j.get("wdir") else res["proj"]):
+                return at + "target ran in %s, expected %s (options %s %s)" % (o["wd"], ("the -w directory " + j["wdir"]) if j.get("wdir") else
+                    ("the parent of the magefiles directory " if use_sub else "the directory ") + res["proj"], j.get("xargs", []), j.get("xenv", {})), items
         return None, items
 
     import threading
@@ -1101,7 +1164,7 @@ exec go "$@"
     for j, res in zip(jobs, results):
         ctx.add("e2e_" + j["kind"])
         bad, items = judge(j, res)
-        case = {"e2e": {k: j[k] for k in ("kind", "top", "sub", "env", "plat", "flags", "history", "mutations", "links", "via", "top_named", "gocmd", "goplan", "extras", "attrs") if k in j}, "observed": res["steps"], "project": res["proj"],
+        case = {"e2e": {k: j[k] for k in ("kind", "top", "sub", "env", "plat", "flags", "history", "mutations", "links", "via", "top_named", "gocmd", "goplan", "extras", "attrs", "xargs", "xenv", "wdir") if k in j}, "observed": res["steps"], "project": res["proj"],
                 "repo": REPO}
         if bad:
             # a deterministic defect shows again in a fresh copy of the project (new directory, new cache); a one-off does not
@@ -1194,7 +1257,7 @@ def gen_sequence(rng, si, host):
             else:
                 kind = "same"
         steps.append({"kind": kind, "edits": edits, "restore_file_mtime": rng.random() < 0.5, "restore_dir_mtime": rng.random() < 0.5,
-                      "goos": q["goos"], "goarch": q["goarch"], "isdir": q["isdir"], "state": [dict(f) for f in state]})
+                      "goos": q["goos"], "goarch": q["goarch"], "isdir": q["isdir"], "isdebug": rng.random() < 0.4, "state": [dict(f) for f in state]})
     return {"id": si, "files0": d["files"], "mixed": d["mixed"], "steps": steps}
 
 
@@ -1221,7 +1284,7 @@ def run_sequences(ctx, binp, host, supported, release, nrelease, report):
             path = os.path.join(root, vname, "s%05d" % sq["id"])
             write_dir(path, {"files": sq["files0"]})
             reqs.append({"op": "magefiles_seq", "raw": {"dir": path, "cache": "", "steps": [
-                {k: st[k] for k in ("edits", "restore_file_mtime", "restore_dir_mtime", "goos", "goarch", "isdir")} for st in sq["steps"]]}})
+                {k: st.get(k, False) for k in ("edits", "restore_file_mtime", "restore_dir_mtime", "goos", "goarch", "isdir", "isdebug")} for st in sq["steps"]]}})
         lines = [json.dumps({"op": "buildctx"})] + [json.dumps(r) for r in reqs]
         rc, out, err = sh([binp], input=("\n".join(lines) + "\n").encode(), env=proc_env(envv), timeout=1800)
         ans = [json.loads(l) for l in out.splitlines() if l.strip()]
@@ -1237,7 +1300,7 @@ def run_sequences(ctx, binp, host, supported, release, nrelease, report):
                 calls += 1
                 kinds[st["kind"]] = kinds.get(st["kind"], 0) + 1
                 d = {"id": sq["id"], "files": sorted(st["state"], key=lambda f: f["name"].encode()), "mixed": sq["mixed"]}
-                q = {k2: st[k2] for k2 in ("goos", "goarch", "isdir")}
+                q = {k2: st.get(k2, False) for k2 in ("goos", "goarch", "isdir", "isdebug")}
                 a = {"files": a["files"], "err": a["err"]}
                 what = oracle(d, q, host, envv, dflt, supported, nrelease, a["files"], a["err"])
                 case = {"seq": {"id": sq["id"], "files0": sq["files0"], "mixed": sq["mixed"], "steps": sq["steps"][:k + 1]}, "failing_call": k, "env_name": vname, "env": envv,
@@ -1391,11 +1454,11 @@ def run(ctx):
     for k, q in enumerate(reqs):
         p = dirs[q["di"]]["path"]
         if k % 7 == 3:
-            wire.append({"cwd": os.path.dirname(p), "dir": os.path.basename(p), "goos": q["goos"], "goarch": q["goarch"], "isdir": q["isdir"]})
+            wire.append({"cwd": os.path.dirname(p), "dir": os.path.basename(p), "goos": q["goos"], "goarch": q["goarch"], "isdir": q["isdir"], "isdebug": q.get("isdebug", False)})
         elif k % 7 == 5:
-            wire.append({"cwd": p, "dir": ".", "goos": q["goos"], "goarch": q["goarch"], "isdir": q["isdir"]})
+            wire.append({"cwd": p, "dir": ".", "goos": q["goos"], "goarch": q["goarch"], "isdir": q["isdir"], "isdebug": q.get("isdebug", False)})
         else:
-            wire.append({"cwd": "", "dir": p, "goos": q["goos"], "goarch": q["goarch"], "isdir": q["isdir"]})
+            wire.append({"cwd": "", "dir": p, "goos": q["goos"], "goarch": q["goarch"], "isdir": q["isdir"], "isdebug": q.get("isdebug", False)})
     results = pmap(lambda v: run_unit(binp, v[1], wire), variants)
     ctx.log("implementation: %d calls of mage.Magefiles in %d fresh processes" % (len(wire) * len(variants), len(variants)))
 
@@ -1430,9 +1493,9 @@ def run(ctx):
             dist["error" if a["err"] else ("nonempty" if a["files"] else "empty")] += 1
             if not a["err"] and a["files"] and a["dirs"] != [w["dir"]]:
                 ctx.violation({"kind": "oracle", "clause": "returned paths are not inside the directory asked for: %s vs %s" % (a["dirs"], w["dir"])},
-                              case={"dir": {k: d[k] for k in ("id", "files", "mixed", "mode")}, "request": {k: q[k] for k in ("goos", "goarch", "isdir")}, "env_name": vname, "env": envv})
+                              case={"dir": {k: d[k] for k in ("id", "files", "mixed", "mode")}, "request": {k: q.get(k, False) for k in ("goos", "goarch", "isdir", "isdebug")}, "env_name": vname, "env": envv})
             what = oracle(d, q, host, envv, dflt, supported, nrelease, a["files"], a["err"])
-            case = {"dir": {k: d[k] for k in ("id", "files", "mixed", "mode")}, "request": {k: q[k] for k in ("goos", "goarch", "isdir")}, "env_name": vname, "env": envv,
+            case = {"dir": {k: d[k] for k in ("id", "files", "mixed", "mode")}, "request": {k: q.get(k, False) for k in ("goos", "goarch", "isdir", "isdebug")}, "env_name": vname, "env": envv,
                     "implementation": {"files": a["files"], "err": a["err"]}, "build_default": {k: dflt[k] for k in ("goos", "goarch", "cgo")}}
             report(what, case, d, envv)
             runs_by_dir.setdefault(q["di"], []).append(run_coq(pi, q, a))
@@ -1489,7 +1552,7 @@ def run(ctx):
             third += 1
             if r[0] != r[1]:
                 ctx.violation({"kind": "oracle-vs-go-list", "clause": "the oracle and `go list -tags mage` disagree: %s vs %s" % (sorted(r[1]), sorted(r[0]))},
-                              case={"dir": {k: d[k] for k in ("id", "files", "mixed", "mode")}, "request": {k: q[k] for k in ("goos", "goarch", "isdir")}, "env_name": "unset", "env": {}},
+                              case={"dir": {k: d[k] for k in ("id", "files", "mixed", "mode")}, "request": {k: q.get(k, False) for k in ("goos", "goarch", "isdir", "isdebug")}, "env_name": "unset", "env": {}},
                               found_input=False)
     rcase = (ctx.replay or {}).get("case") or {}
     if not ctx.replay or rcase.get("seq"):
